@@ -283,15 +283,18 @@ def c_cli(path: str, target: str, no_dump: bool, v: bool, mode_i: int) -> bool:
     return seen["fp"] == path and seen["kw"] == {"dump": not no_dump, "dump_path": target, "output_mode": VALID_MODES[mode_i]}
 
 
-def c_main(n1: str, n2: str, n3: str, is_file: bool) -> bool:
+MAIN_NAMES = ["a.sql", "b", "c.d.hql", "e.ddl", "f.txt", ".bql", "g.sql.bak"]
+
+
+def c_main(i1: int, i2: int, i3: int, is_file: bool) -> bool:
     """
     cli.main: a file path is parsed once; a directory is walked and every entry with a DDL
     extension is parsed exactly once, with its own path <dir>/<entry>.
 
-    pre: len(n1) <= 5 and len(n2) <= 5 and len(n3) <= 5
-    pre: "/" not in n1 and "/" not in n2 and "/" not in n3
+    pre: 0 <= i1 < 7 and 0 <= i2 < 7 and 0 <= i3 < 7
     post: _
     """
+    n1, n2, n3 = MAIN_NAMES[i1], MAIN_NAMES[i2], MAIN_NAMES[i3]
     calls = []
     a = _Args()
     a.ddl_file_path, a.target, a.no_dump, a.v, a.output_mode = "d", "t", True, False, "sql"
@@ -316,7 +319,7 @@ def c_main(n1: str, n2: str, n3: str, is_file: bool) -> bool:
     return calls == want
 
 
-def api_c_main(n1, n2, n3, is_file):
+def api_c_main(i1, i2, i3, is_file):
     import shutil
     import sys
     import tempfile
